@@ -103,6 +103,7 @@ struct Session {
 	// world + library life cycle
 	void world(const ref::Bytes &sched);     // initialises the world; names the locks
 	int start_debug(unsigned flush_interval);
+	int start_debug_keep_mode(unsigned flush_interval);      // the debug-mode switch is left as the previous session set it
 	int start_normal(const std::string &board, const std::string &track, const std::string &train,
 	                 unsigned flush_interval);
 	int start_files(const char *board, const char *track, const char *train, unsigned flush_interval);
